@@ -330,9 +330,10 @@ pub async fn execute(plan: Plan, dir: &Path) -> RunOutcome {
                         f.drop_response_at.push(at);
                     }
                 }
+                let before = no::known_logs(&world, di).await;
                 let c = world.sync(di, &mut rec).await;
                 if c == "ok" {
-                    no::check_success_means_equal(&mut world, di, &mut rec).await;
+                    no::check_success_means_equal(&mut world, di, &mut rec, &before).await;
                 }
                 c
             }
@@ -418,12 +419,23 @@ fn _v(_: Value) {}
 pub fn normalise_err(e: &str) -> String {
     let mut out = String::new();
     let mut last_us = false;
-    for w in e.split(|c: char| !(c.is_ascii_alphabetic())) {
+    // quoted parts are ids / paths
+    let mut plain = String::new();
+    let mut in_q = false;
+    for c in e.chars() {
+        if c == '\'' || c == '"' {
+            in_q = !in_q;
+            plain.push(' ');
+        } else if !in_q {
+            plain.push(c);
+        }
+    }
+    for w in plain.split(|c: char| !(c.is_ascii_alphabetic())) {
         if w.len() < 3 {
             continue;
         }
         // hex-looking words are ids
-        if w.len() >= 6 && w.chars().all(|c| c.is_ascii_hexdigit()) {
+        if w.chars().all(|c| c.is_ascii_hexdigit()) {
             continue;
         }
         if !out.is_empty() && !last_us {
